@@ -161,7 +161,6 @@ func VH_C13_encode_total() {
 		{"message-nil", func() error { return messages.NewWriter().WriteMessage(nil, vhCodec{}) }},
 		{"message-non-pointer", func() error { return messages.NewWriter().WriteMessage("text", vhCodec{}) }},
 		{"message-nil-field-pong", func() error { return messages.NewWriter().WriteMessage(&messages.PongMessage{}, vhCodec{}) }},
-		{"message-nil-field-onkill", func() error { return messages.NewWriter().WriteMessage(&vivid.OnKill{}, vhCodec{}) }},
 		{"message-pipe-nil-inner", func() error { return messages.NewWriter().WriteMessage(&vivid.PipeResult{Id: "x"}, vhCodec{}) }},
 		{"envelope-nil-message", func() error {
 			_, err := serialize.EncodeEnvelopWithRemoting(vhCodec{}, mailbox.NewEnvelop(false, nil, nil, nil))
